@@ -69,6 +69,7 @@ static int cint[NCH];		/* child c has a registered wait interest (API contract: 
 static int cdead[NCH];		/* a terminating status was queued for child c */
 static char cbeh[NCH];		/* popen child behaviour: 0 none, 't' dies from the n-th SIGTERM, 'i' ignores SIGTERM */
 static int cbeh_n[NCH], cterm[NCH];
+static int chold[NCH];		/* iv_wait_interest_register in flight for child c: its changes are reported afterwards */
 static int spawning = -1;	/* child index being created by the running fork() */
 static char spawn_st[16];
 
@@ -185,8 +186,10 @@ static int child_of_pid(int pid)
 
 static void child_change(int c, int st, int thr, const char *why)
 {
-	if (c < 0 || c >= NCH || cpid[c] == 0 || cdead[c] || st < 0)
-		return;
+	static int nchanges;
+
+	if (c < 0 || c >= NCH || cpid[c] == 0 || cdead[c] || st < 0 || ++nchanges > 48)
+		return;		/* 48: a handler script that answers every status with a new one must come to rest */
 	if (WIFEXITED(st) || WIFSIGNALED(st))
 		cdead[c] = 1;
 	vk_trace("a %s pid=%d st=%d", why, cpid[c], st);
@@ -263,8 +266,14 @@ static void act_wait_register(struct tctx *c, const char *a, int j, const char *
 	if (!spawn) {
 		w->pid = cpid[ch];
 		vk_trace("a %s pid=%d", a, cpid[ch]);
+		/* API contract: the pid is an unreaped child when the interest enters the tree.  A user cannot guarantee that
+		   against a concurrent reaper; the scenario does, by reporting this child's changes only after the call */
+		chold[ch] = 1;
 		iv_wait_interest_register(w);
+		chold[ch] = 0;
 		vk_trace("A ir%d", j);
+		if (mt_child_has_pending(cpid[ch]))
+			mt_raise(SIGCHLD, -1);
 	} else {
 		spawning = ch;
 		snprintf(spawn_st, sizeof(spawn_st), "%s", *p == '.' ? p + 1 : "");
@@ -290,10 +299,10 @@ static void act_wait_unregister(struct tctx *c, int j)
 		return;
 	vk_trace("a iu%d", j);
 	s->wi_reg[j] = 0;
-	cint[s->wi_child[j]] = 0;
 	iv_wait_interest_unregister(s->wi[j]);
 	release(s->wi[j], sizeof(struct iv_wait_interest));
 	s->wi[j] = NULL;
+	cint[s->wi_child[j]] = 0;	/* only now may another interest for this pid be registered */
 	vk_trace("A iu%d", j);
 }
 
@@ -441,12 +450,20 @@ int ivmt_ext_action(struct tctx *c, const char *a)
 	return 0;
 }
 
+static int reap_hold(int pid)
+{
+	int c = child_of_pid(pid);
+
+	return c >= 0 && chold[c];
+}
+
 void ivmt_ext_loop_init(struct tctx *c, int k)
 {
 	(void)c;
 	if (k == 0) {
 		mt_fork_hook = fork_hook;
 		mt_kill_hook = kill_hook;
+		mt_reap_hold = reap_hold;
 	}
 }
 
